@@ -231,23 +231,267 @@ def case_shuffle_api(ctx, inp):
         ctx.fail("rows with equal key values ended in different partitions", observed={repr(k): v for k, v in split.items()})
     # expected routing: partition = `_partitions` value; exact order for the task shuffle
     targets = _expected_targets(df, cols, nout)
-    lens = [len(p) for p in U.partitions(d)]
+    # Shuffle._lower repartitions to npartitions_out first when that is smaller: the concrete shuffle sees those
+    d_eff = d.repartition(npartitions=nout) if nout < n_in else d
+    lens = [len(p) for p in U.partitions(d_eff)]
+    n_eff = len(lens)
     src, pos = [], 0
     for ln in lens:
         src.append(targets[pos:pos + ln])
         pos += ln
-    params = _stage_params(n_in, nout, mb)
+    params = _stage_params(n_eff, nout, mb)
     if params is None:
         model = ctx.lean(Sym("simple-shuffle"), src, nout)
         ctx.branch(f"api-{method}-simple")
     else:
         model = ctx.lean(Sym("task-shuffle"), src, nout, params[0], params[1])
-        ctx.branch(f"api-{method}-staged{min(params[1], 4)}" + ("-resize" if nout != n_in else ""))
+        ctx.branch(f"api-{method}-staged{min(params[1], 4)}" + ("-resize" if nout != n_eff else ""))
+    if nout < n_in:
+        ctx.branch("api-repartitioned-first")
     if method == "tasks":
         ctx.eq("task shuffle partitions (rows and order)", model, ids)
     else:
         ctx.eq("disk shuffle partitions (rows)", [sorted(p) for p in model], [sorted(p) for p in ids])
     ctx.branch("keys-" + inp["kind"] + ("-na" if any(k is None for k in inp["keys"]) else ""))
+    # a selection of output partitions (PartitionsFiltered: the `_filter` of the last stage)
+    sel = inp.get("sel")
+    if sel:
+        sel = sorted({s % nout for s in sel})
+        try:
+            with dask.config.set(scheduler="sync"):
+                sub = U.partitions(r.partitions[sel])
+        except Exception as e:  # noqa: BLE001
+            ctx.fail("shuffle(...).partitions[sel] raised: " + U.exc_name(e), observed=[sel, U.exc_name(e)])
+            return
+        got = [[int(v) for v in p.v] for p in sub]
+        exp = [model[i] for i in sel]
+        if method == "tasks":
+            ctx.eq("selected partitions of the task shuffle", exp, got)
+        else:
+            ctx.eq("selected partitions of the disk shuffle (rows)", [sorted(p) for p in exp], [sorted(p) for p in got])
+        psel = _stage_params(n_eff, len(sel), mb)
+        ctx.branch("api-selection-" + ("simple" if psel is None else "staged"))
+
+
+def case_task_expr(ctx, inp):
+    """function level: a TaskShuffle expression evaluated on an arbitrary `_partitions` column (values that name no
+    output included), count unchanged / grown / shrunk, optional selection of outputs — rows AND order vs the model"""
+    import dask
+    import numpy as np
+    import pandas as pd
+    U.dd()
+    from dask.dataframe.dask_expr import new_collection
+    from dask.dataframe.dask_expr._shuffle import TaskShuffle
+    parts_t, n_out, mb, sel = inp["parts"], inp["n_out"], inp["max_branch"], inp.get("sel")
+    flat = [t for p in parts_t for t in p]
+    df = pd.DataFrame({"_partitions": np.array(flat, dtype="int64"), "v": np.arange(len(flat), dtype="int64")})
+    cuts = [0]
+    for p in parts_t:
+        cuts.append(cuts[-1] + len(p))
+    d = U.frame_from_cuts(df, cuts)
+    n_in = len(parts_t)
+    args = [d.expr, "_partitions", n_out, False, {"max_branch": mb}, None] + ([list(sel)] if sel is not None else [])
+    try:
+        with dask.config.set(scheduler="sync"):
+            parts = U.partitions(new_collection(TaskShuffle(*args)))
+    except Exception as e:  # noqa: BLE001
+        ctx.fail("TaskShuffle expression raised: " + U.exc_name(e), observed=U.exc_name(e))
+        return
+    ids = [[int(v) for v in p.v] for p in parts]
+    params = _stage_params(n_in, len(sel) if sel is not None else n_out, mb)
+    if params is None:
+        model = ctx.lean(Sym("simple-shuffle"), parts_t, n_out)
+    else:
+        model = ctx.lean(Sym("task-shuffle"), parts_t, n_out, params[0], params[1])
+    outs = list(sel) if sel is not None else list(range(n_out))
+    ctx.eq("TaskShuffle expression: partitions (rows and order)", [model[p] for p in outs], ids)
+    valid = all(t < n_out for t in flat)
+    if valid:
+        for p, rows in zip(outs, ids):
+            if any(flat[v] != p for v in rows):
+                ctx.fail("TaskShuffle: a row is in a partition other than its `_partitions` value", observed=[p, rows])
+        if sel is None and sorted(v for rows in ids for v in rows) != list(range(len(flat))):
+            ctx.fail("TaskShuffle does not preserve the multiset of rows", observed=ids)
+    ctx.branch("expr-" + ("simple" if params is None else f"staged{min(params[1], 4)}")
+               + ("-grow" if n_out > n_in else "-shrink" if n_out < n_in else "-same")
+               + ("-sel" if sel is not None else "") + ("" if valid else "-invalid-targets"))
+    if any(len(p) == 0 for p in parts_t):
+        ctx.branch("expr-empty-input-partition")
+
+
+def _keyframe_cuts(keys, cuts):
+    """frame with column k (int64, or float64 when a key is missing) and v = row number, partitions df.iloc[cuts]"""
+    import numpy as np
+    import pandas as pd
+    if any(k is None for k in keys):
+        col = np.array([np.nan if k is None else float(k) for k in keys], dtype="float64")
+    else:
+        col = np.array(keys, dtype="int64")
+    df = pd.DataFrame({"k": col, "v": np.arange(len(keys), dtype="int64")})
+    return df, U.frame_from_cuts(df, cuts)
+
+
+def _parts_of(keys, cuts):
+    return [keys[a:b] for a, b in zip(cuts, cuts[1:])]
+
+
+def _lean_keys(part):
+    return [Sym("none") if k is None else k for k in part]
+
+
+def _nan_none(x):
+    return None if x is None or x != x else int(x)
+
+
+def case_presorted_fn(ctx, inp):
+    """function level: `_calculate_divisions` (mins, maxes, presorted) vs the model"""
+    import dask
+    U.dd()
+    from dask.dataframe.dask_expr._shuffle import _calculate_divisions
+    keys, cuts, asc = inp["keys"], inp["cuts"], inp["ascending"]
+    df, d = _keyframe_cuts(keys, cuts)
+    with dask.config.set(scheduler="sync"):
+        _, mins, maxes, presorted = _calculate_divisions(d.expr, d.expr["k"], d.npartitions, asc)
+    m_pre, m_mins, m_maxes = ctx.lean(Sym("calc-presorted"), asc, [_lean_keys(p) for p in _parts_of(keys, cuts)])
+    ctx.eq("_calculate_divisions: presorted", m_pre, bool(presorted))
+    ctx.eq("_calculate_divisions: mins", m_mins, [_nan_none(x) for x in mins])
+    ctx.eq("_calculate_divisions: maxes", m_maxes, [_nan_none(x) for x in maxes])
+    parts = _parts_of(keys, cuts)
+    ctx.branch("presorted-" + ("asc" if asc else "desc") + ("-true" if presorted else "-false")
+               + ("-na" if any(k is None for k in keys) else "") + ("-empty" if any(not p for p in parts) else ""))
+    if presorted:
+        # what the shortcut relies on: sorting every partition where it is gives a globally ordered frame
+        flat = [k for p in parts for k in (sorted(p, reverse=not asc) if None not in p else p)]
+        if any(k is None for k in flat) or flat != sorted(flat, reverse=not asc):
+            ctx.fail("_calculate_divisions reports presorted for a frame whose partitions are not in order", observed=parts)
+
+
+def _stage_of_shuffle(node, n_model_in):
+    """(k, stages) for the model call: the real staging when the concrete shuffle is a TaskShuffle over the same
+    input partitions, else 0, 0 (SimpleShuffle model; by task_shuffle_eq_simple the result does not depend on it)"""
+    from dask.dataframe.dask_expr._shuffle import TaskShuffle
+    if type(node) is TaskShuffle and node.frame.npartitions == n_model_in:
+        p = _stage_params(node.frame.npartitions, node.npartitions_out, (node.options or {}).get("max_branch"))
+        if p is not None:
+            return p
+    return 0, 0
+
+
+def case_sort_model(ctx, inp):
+    """API level vs the Lean PIPELINE model: the real output partitions of sort_values / set_index(divisions=…) —
+    key sequence and row set of every partition — equal `sortValuesWith` evaluated with the divisions the lowered
+    graph really uses (read off the `_SetPartitionsPreSetIndex` node); the presorted decision is diffed too."""
+    import math
+
+    import dask
+    import pandas as pd
+    U.dd()
+    from dask.dataframe.dask_expr._shuffle import SimpleShuffle, _SetPartitionsPreSetIndex
+    keys, cuts, op, asc, nap = inp["keys"], inp["cuts"], inp["op"], inp["ascending"], inp["na_position"]
+    df, d = _keyframe_cuts(keys, cuts)
+    kw = {}
+    if inp.get("method"):
+        kw["shuffle_method"] = inp["method"]
+    if inp.get("max_branch"):
+        kw["max_branch"] = inp["max_branch"]
+    try:
+        with dask.config.set(scheduler="sync"):
+            if op == "sort_values":
+                r = d.sort_values("k", ascending=asc, na_position=nap, **kw)
+            else:
+                asc, nap = True, "last"
+                r = d.set_index("k", divisions=inp["divisions"], **kw)
+            low = r.expr.optimize(fuse=False)
+            parts = U.partitions(r)
+    except Exception as e:  # noqa: BLE001
+        ctx.fail(f"{op} raised: " + U.exc_name(e), observed=U.exc_name(e))
+        return
+    nodes = list(low.find_operations(_SetPartitionsPreSetIndex))
+    shuffles = list(low.find_operations(SimpleShuffle))
+    in_parts = [_lean_keys(p) for p in _parts_of(keys, cuts)]
+    if nodes:
+        divs = [math.ceil(float(x)) for x in nodes[0].new_divisions]     # integer keys: d <= v  <=>  ceil(d) <= v
+        if any(x < 0 for x in divs):
+            return
+        k, S = _stage_of_shuffle(shuffles[0], len(in_parts)) if shuffles else (0, 0)
+        model = ctx.lean(Sym("sort-values"), in_parts, divs, asc, nap == "last", k, S)
+        kind = "disk" if shuffles and type(shuffles[0]).__name__ == "DiskShuffle" else "tasks"
+        ctx.branch(f"sortmodel-{op}-shuffled-{kind}" + (f"-staged{min(S, 4)}" if k else "-simple")
+                   + ("" if asc else "-desc") + ("-nafirst" if nap == "first" else "")
+                   + ("-na" if any(x is None for x in keys) else ""))
+    else:
+        model = ctx.lean(Sym("sort-values"), in_parts, [], asc, nap == "last", 0, 0)
+        ctx.branch(f"sortmodel-{op}-" + ("single-partition" if len(in_parts) == 1 else "presorted-shortcut"))
+    if op == "sort_values" and len(in_parts) > 1:
+        m_pre = ctx.lean(Sym("calc-presorted"), asc, in_parts)[0]
+        ctx.eq("sort_values: presorted shortcut taken", m_pre, not nodes)
+    real = [[[_nan_none(x) for x in (p.k if op == "sort_values" else p.index)], sorted(int(v) for v in p.v)] for p in parts]
+    exp = [[[kk for kk, _ in p], sorted(i for _, i in p)] for p in model]
+    ctx.eq(f"{op}: partitions (key sequence, row set) vs the pipeline model", exp, real)
+    # property oracles on the real output
+    flat_keys = [kk for ks, _ in real for kk in ks]
+    ref = df.sort_values("k", ascending=asc, na_position=nap, kind="stable")
+    if flat_keys != [_nan_none(x) for x in ref.k]:
+        ctx.fail(f"{op} is not globally ordered like pandas", observed=flat_keys[:40], expected=[_nan_none(x) for x in ref.k][:40])
+    if sorted(i for _, ids in real for i in ids) != list(range(len(keys))):
+        ctx.fail(f"{op} does not keep exactly the input rows", observed=real)
+    if op == "set_index" and keys and inp["divisions"][0] <= min(keys) and max(keys) <= inp["divisions"][-1]:
+        why = U.truthful(list(r.divisions), parts)
+        if why:
+            ctx.fail("set_index(divisions spanning the data) not truthful: " + why, observed=real)
+        ctx.branch("sortmodel-set_index-spanning")
+    elif op == "set_index":
+        ctx.branch("sortmodel-set_index-not-spanning")
+
+
+def case_dedup_fn(ctx, inp):
+    """function level: pandas drop_duplicates(keep) on ONE frame vs the specification `dedup`"""
+    import pandas as pd
+    keys, keep = inp["keys"], inp["keep"]
+    got = [int(v) for v in pd.DataFrame({"k": keys, "v": range(len(keys))}).drop_duplicates(subset=["k"], keep=keep).v]
+    ctx.eq("pandas drop_duplicates vs dedup", ctx.lean(Sym("dedup"), keep == "first", keys), got)
+    ctx.branch("dedup-fn-" + keep + ("-dups" if len(set(keys)) < len(keys) else ""))
+
+
+def case_dedup_model(ctx, inp):
+    """API level vs the Lean model: the real partitions of drop_duplicates(subset=['k'], keep, split_out, tasks) —
+    rows AND order — equal `dedupTree` (no shuffle in the lowered graph) / `dedupShuffleWith taskShuffle`."""
+    import dask
+    U.dd()
+    from dask.dataframe.dask_expr._shuffle import SimpleShuffle
+    keys, cuts, keep, so = inp["keys"], inp["cuts"], inp["keep"], inp["split_out"]
+    df, d = _keyframe_cuts(keys, cuts)
+    kw = {"shuffle_method": inp["method"]} if inp.get("method") else {}
+    if so is not None:
+        kw["split_out"] = so
+    try:
+        with dask.config.set(scheduler="sync"):
+            r = d.drop_duplicates(subset=["k"], keep=keep, **kw)
+            low = r.expr.optimize(fuse=False)
+            parts = U.partitions(r)
+    except Exception as e:  # noqa: BLE001
+        ctx.fail("drop_duplicates raised: " + U.exc_name(e), observed=U.exc_name(e))
+        return
+    real = [[int(v) for v in p.v] for p in parts]
+    in_parts = _parts_of(keys, cuts)
+    shuffles = list(low.find_operations(SimpleShuffle))
+    first = keep == "first"
+    if not shuffles:
+        model = [ctx.lean(Sym("dedup-tree"), first, in_parts)]
+        ctx.branch("dedupmodel-tree-" + keep)
+    else:
+        node = shuffles[0]
+        n = node.npartitions_out
+        targets = _expected_targets(df, ["k"], n)
+        table = sorted({(int(kk), int(t)) for kk, t in zip(keys, targets)})
+        k, S = _stage_of_shuffle(node, len(in_parts))
+        model = ctx.lean(Sym("dedup-shuffle"), first, in_parts, [list(t) for t in table], n, k, S)
+        ctx.branch(f"dedupmodel-shuffle-{keep}-" + (f"staged{min(S, 4)}" if k else "simple")
+                   + ("-repartitioned" if node.frame.npartitions != len(in_parts) else ""))
+    ctx.eq("drop_duplicates: partitions (rows and order) vs the model", model, real)
+    exp = df.drop_duplicates(subset=["k"], keep=keep)
+    if sorted(v for p in real for v in p) != sorted(int(v) for v in exp.v):
+        ctx.fail("drop_duplicates(keep=%s) differs from pandas" % keep, observed=real, expected=sorted(int(v) for v in exp.v))
 
 
 def _same_rows(got, exp):
@@ -355,9 +599,18 @@ def case_dedup_api(ctx, inp):
                 if not same_keys:
                     ctx.fail("drop_duplicates: set of distinct keys differs from pandas", observed=sorted(got.v)[:30], expected=sorted(exp.v)[:30])
                 elif not same_rows:
-                    # which duplicate survives depends on the row order inside the shuffled partition
+                    # which duplicate survives depends on the row order inside the shuffled partition. The recorded
+                    # finding is exactly: an explicit disk shuffle really in the graph (>= 2 input partitions, not the
+                    # tree path), and the result is still ONE input row per distinct key (a legal choice in another
+                    # order). Anything else is a fresh failure.
+                    by_key = {}
+                    for kk, v in zip(map(repr, df[cols].itertuples(index=False)), df.v):
+                        by_key.setdefault(kk, set()).add(int(v))
+                    legal = all(int(v) in by_key.get(kk, ()) for kk, v in zip(map(repr, got[cols].itertuples(index=False)), got.v)) \
+                        and len(got) == len(exp)
+                    shuffled = d.npartitions >= 2 and not (so == 1 and so is not True)
                     sig = ("drop_duplicates:shuffle_method=disk:keep-first/last-picks-by-arrival-order"
-                           if method == "disk" and inp["subset"] else None)
+                           if method == "disk" and inp["subset"] and legal and shuffled else None)
                     ctx.fail("drop_duplicates(keep=%s) keeps a different duplicate than pandas" % keep, sig=sig,
                              observed=sorted(got.v)[:30], expected=sorted(exp.v)[:30])
             elif op == "unique":
@@ -377,7 +630,9 @@ def case_dedup_api(ctx, inp):
 
 
 CASES = {"shuffle_group": case_shuffle_group, "task_layer": case_task_layer, "spp": case_spp,
-         "shuffle_api": case_shuffle_api, "sort_api": case_sort_api, "dedup_api": case_dedup_api}
+         "shuffle_api": case_shuffle_api, "task_expr": case_task_expr, "presorted_fn": case_presorted_fn,
+         "sort_model": case_sort_model, "dedup_fn": case_dedup_fn, "dedup_model": case_dedup_model,
+         "sort_api": case_sort_api, "dedup_api": case_dedup_api}
 
 
 def _rand_keys(rng, n, kind):
@@ -388,7 +643,20 @@ def _rand_keys(rng, n, kind):
     return ks
 
 
-def generate(ctx):
+def _interleave(gens):
+    """weighted round robin over the streams, so that a deadline cuts all of them proportionally"""
+    gens = [(iter(g), w) for g, w in gens]
+    while gens:
+        for g, w in list(gens):
+            for _ in range(w):
+                try:
+                    yield next(g)
+                except StopIteration:
+                    gens = [x for x in gens if x[0] is not g]
+                    break
+
+
+def _gen_layer(ctx):
     rng = ctx.rng
     # stage/nsplits float glue + wiring
     pairs = [(n, mb) for n in range(2, 401) for mb in range(2, 33)] if ctx.thorough() else []
@@ -396,12 +664,16 @@ def generate(ctx):
         p = _stage_params(n, n, mb)
         if p and p[0] ** p[1] < n:
             yield "task_layer", {"n_in": n, "n_out": n, "max_branch": mb}
-    for _ in range(ctx.n(40, 300)):
+    for _ in range(ctx.n(30, 300)):
         mb = rng.choice([2, 2, 3, 4, 5])
         n_in = rng.randint(2, 30 if mb > 2 else 20)
         n_out = n_in if rng.random() < 0.5 else rng.randint(2, 30)
         yield "task_layer", {"n_in": n_in, "n_out": n_out, "max_branch": mb}
-    for _ in range(ctx.n(500, 5000)):
+
+
+def _gen_group(ctx):
+    rng = ctx.rng
+    for _ in range(ctx.n(300, 4000)):
         k = rng.randint(1, 6)
         stage = rng.randint(0, 3)
         npart = rng.randint(1, 60)
@@ -412,20 +684,157 @@ def generate(ctx):
         if not hashing and rng.random() < 0.1:
             vals = [v * 1000003 for v in vals]
         yield "shuffle_group", {"vals": vals, "stage": stage, "k": k, "npartitions": npart, "nfinal": nfinal, "hashing": hashing}
-    for _ in range(ctx.n(500, 5000)):
+
+
+def _sorted_lists(length, hi):
+    """all non-decreasing lists of `length` values in 0..hi"""
+    def rec(prefix, lo):
+        if len(prefix) == length:
+            yield list(prefix)
+            return
+        for v in range(lo, hi + 1):
+            yield from rec(prefix + [v], v)
+    yield from rec([], 0)
+
+
+def _gen_spp(ctx):
+    rng = ctx.rng
+    if ctx.thorough():
+        # exhaustive small space: every non-decreasing division vector of 2..4 entries over 0..4, every value 0..5
+        # and NaN, both directions, both na_position
+        for nd in (2, 3, 4):
+            for divs in _sorted_lists(nd, 4):
+                for asc in (True, False):
+                    for nal in (True, False):
+                        yield "spp", {"divs": divs, "xs": [None, 0, 1, 2, 3, 4, 5], "ascending": asc, "na_last": nal}
+    for _ in range(ctx.n(300, 3000)):
         nd = rng.randint(2, 7)
         divs = sorted(rng.randint(0, 20) for _ in range(nd))
         xs = [None if rng.random() < 0.1 else rng.randint(0, 22) for _ in range(rng.randint(1, 10))]
         yield "spp", {"divs": divs, "xs": xs, "ascending": rng.random() < 0.7, "na_last": rng.random() < 0.6}
-    for _ in range(ctx.n(150, 1500)):
+
+
+def _gen_shuffle_api(ctx):
+    rng = ctx.rng
+    for _ in range(ctx.n(100, 1000)):
         kind = rng.choice(["int", "int", "str", "float", "cat"])
         n = rng.randint(1, 50)
         mb = rng.choice([None, 2, 2, 3])
         n_in = rng.randint(1, 12)
         yield "shuffle_api", {"keys": _rand_keys(rng, n, kind), "kind": kind, "n_in": n_in,
                               "n_out": rng.choice([None, None, rng.randint(1, 14)]), "method": rng.choice(["tasks", "tasks", "disk"]),
-                              "max_branch": mb, "on": rng.choice([["k"], ["k"], ["k", "k2"]])}
-    for _ in range(ctx.n(70, 700)):
+                              "max_branch": mb, "on": rng.choice([["k"], ["k"], ["k", "k2"]]),
+                              "sel": [rng.randint(0, 13) for _ in range(rng.randint(1, 6))] if rng.random() < 0.3 else None}
+
+
+def _gen_task_expr(ctx):
+    rng = ctx.rng
+    for _ in range(ctx.n(50, 600)):
+        mb = rng.choice([2, 2, 3])
+        n_in = rng.randint(1, 10)
+        n_out = n_in if rng.random() < 0.4 else rng.randint(1, 12)
+        invalid = rng.random() < 0.25
+        parts = []
+        for _p in range(n_in):
+            ln = 0 if rng.random() < 0.2 else rng.randint(1, 5)
+            parts.append([rng.randrange(n_out + (6 if invalid else 0)) for _r in range(ln)])
+        sel = None
+        if rng.random() < 0.3:
+            sel = sorted(rng.sample(range(n_out), rng.randint(1, n_out)))
+        yield "task_expr", {"parts": parts, "n_out": n_out, "max_branch": mb, "sel": sel}
+
+
+def _ordered_keys(rng, n, hi):
+    return sorted(rng.randint(0, hi) for _ in range(n))
+
+
+def _gen_presorted(ctx):
+    rng = ctx.rng
+    for _ in range(ctx.n(40, 500)):
+        n = rng.randint(1, 14)
+        asc = rng.random() < 0.6
+        keys = _ordered_keys(rng, n, rng.choice([2, 4, 9]))
+        if not asc:
+            keys.reverse()
+        r = rng.random()
+        if r < 0.25 and n >= 2:                       # one inversion somewhere
+            i, j = rng.sample(range(n), 2)
+            keys[i], keys[j] = keys[j], keys[i]
+        elif r < 0.35:                                # the other direction altogether
+            keys.reverse()
+        if rng.random() < 0.3:
+            for _k in range(rng.randint(1, 2)):
+                keys[rng.randrange(n)] = None
+        if all(k is None for k in keys):
+            keys[0] = 1
+        yield "presorted_fn", {"keys": keys, "cuts": U.rand_cuts(rng, n, maxparts=5, p_empty=0.3), "ascending": asc}
+
+
+def _gen_sort_model(ctx):
+    rng = ctx.rng
+    for _ in range(ctx.n(50, 500)):
+        n = rng.randint(1, 30)
+        hi = rng.choice([3, 8, 20])
+        op = "sort_values" if rng.random() < 0.7 else "set_index"
+        asc = rng.random() < 0.6
+        if rng.random() < 0.3:
+            keys = _ordered_keys(rng, n, hi)
+            if not asc and op == "sort_values":
+                keys.reverse()
+        else:
+            keys = [rng.randint(0, hi) for _ in range(n)]
+        if op == "sort_values" and rng.random() < 0.35:
+            for _k in range(rng.randint(1, 3)):
+                keys[rng.randrange(n)] = None
+            if all(k is None for k in keys):
+                keys[0] = 1
+        inp = {"keys": keys, "cuts": U.rand_cuts(rng, n, maxparts=6, p_empty=0.25), "op": op, "ascending": asc,
+               "na_position": rng.choice(["last", "first"]), "method": rng.choice(["tasks", "tasks", "disk", None]),
+               "max_branch": rng.choice([None, 2, 2, 3])}
+        if op == "set_index":
+            nd = rng.randint(2, 6)
+            lo, top = (0, hi) if rng.random() < 0.5 else (rng.randint(0, 3), hi - rng.randint(0, 2) + 2)
+            vals = sorted(rng.sample(range(lo, max(top, lo + nd) + 1), nd))
+            if rng.random() < 0.5:
+                vals[0] = min(vals[0], 0)
+                vals[-1] = max(vals[-1], hi)
+            inp["divisions"] = vals
+        yield "sort_model", inp
+
+
+def _gen_dedup_fn(ctx):
+    rng = ctx.rng
+    if ctx.thorough():
+        # exhaustive small space: every key sequence of length <= 6 over 3 letters, both `keep`
+        import itertools
+        for ln in range(0, 7):
+            for keys in itertools.product(range(3), repeat=ln):
+                for keep in ("first", "last"):
+                    yield "dedup_fn", {"keys": list(keys), "keep": keep}
+    for _ in range(ctx.n(150, 1000)):
+        hi = rng.choice([1, 3, 8])
+        yield "dedup_fn", {"keys": [rng.randint(0, hi) for _ in range(rng.randint(0, 14))], "keep": rng.choice(["first", "last"])}
+
+
+def _gen_dedup_model(ctx):
+    rng = ctx.rng
+    # more than 32 partitions: the shuffle inside drop_duplicates is staged (max_branch cannot be passed here)
+    for _ in range(ctx.n(1, 8)):
+        n = rng.randint(70, 90)
+        keys = [rng.randint(0, 25) for _ in range(n)]
+        cuts = [0] + sorted(rng.sample(range(1, n), rng.randint(33, 38))) + [n]
+        yield "dedup_model", {"keys": keys, "cuts": cuts, "keep": rng.choice(["first", "last"]), "split_out": True, "method": "tasks"}
+    for _ in range(ctx.n(40, 400)):
+        n = rng.randint(1, 30)
+        hi = rng.choice([2, 5, 12])
+        yield "dedup_model", {"keys": [rng.randint(0, hi) for _ in range(n)], "cuts": U.rand_cuts(rng, n, maxparts=6, p_empty=0.25),
+                              "keep": rng.choice(["first", "last"]), "split_out": rng.choice([None, 1, 2, 3, 5, True]),
+                              "method": rng.choice([None, "tasks"])}
+
+
+def _gen_sort_api(ctx):
+    rng = ctx.rng
+    for _ in range(ctx.n(50, 600)):
         kind = rng.choice(["int", "str", "float"])
         n = rng.randint(1, 40)
         keys = _rand_keys(rng, n, kind)
@@ -435,9 +844,13 @@ def generate(ctx):
                            "op": rng.choice(["sort_values", "set_index"]), "ascending": rng.random() < 0.6,
                            "na_position": rng.choice(["last", "first"]), "n_out": rng.choice([None, None, rng.randint(1, 6)]),
                            "method": rng.choice([None, "tasks", "disk"])}
+
+
+def _gen_sort_presorted_api(ctx):
+    rng = ctx.rng
     # frames ALREADY ordered by the key (no shuffle needed unless equal keys straddle a partition boundary or NaN keys
     # sit inside a partition): the "presorted" shortcut of _calculate_divisions
-    for _ in range(ctx.n(60, 600)):
+    for _ in range(ctx.n(40, 500)):
         kind = rng.choice(["int", "int", "float"])
         n = rng.randint(2, 30)
         keys = sorted(rng.randint(0, rng.choice([3, 6, 15])) for _ in range(n))
@@ -451,10 +864,21 @@ def generate(ctx):
                            "op": rng.choice(["sort_values", "sort_values", "set_index"]), "ascending": asc,
                            "na_position": rng.choice(["last", "first"]), "n_out": None,
                            "by": rng.choice([["k"], ["k", "k3"]]), "method": rng.choice([None, "tasks"])}
-    for _ in range(ctx.n(70, 700)):
+
+
+def _gen_dedup_api(ctx):
+    rng = ctx.rng
+    for _ in range(ctx.n(50, 600)):
         kind = rng.choice(["int", "str", "float", "cat"])
         n = rng.randint(1, 40)
         yield "dedup_api", {"keys": _rand_keys(rng, n, kind), "kind": kind, "n_in": rng.randint(1, 6),
                             "op": rng.choice(["drop_duplicates", "drop_duplicates", "unique", "nunique"]),
                             "split_out": rng.choice([None, 1, 2, 3, True]), "method": rng.choice([None, "tasks", "disk"]),
                             "subset": rng.choice([None, ["k"], ["k", "k2"]]), "keep": rng.choice(["first", "last"])}
+
+
+def generate(ctx):
+    yield from _interleave([(_gen_layer(ctx), 1), (_gen_group(ctx), 6), (_gen_spp(ctx), 6), (_gen_shuffle_api(ctx), 2),
+                            (_gen_task_expr(ctx), 1), (_gen_presorted(ctx), 1), (_gen_sort_model(ctx), 1),
+                            (_gen_dedup_fn(ctx), 3), (_gen_dedup_model(ctx), 1), (_gen_sort_api(ctx), 1),
+                            (_gen_sort_presorted_api(ctx), 1), (_gen_dedup_api(ctx), 1)])
